@@ -18,6 +18,12 @@ var vkCommands = map[string]func(args []string) int{}
 // VerifMain is the entry point of the injected verification harness.
 func VerifMain(args []string) int {
 	testMode = false
+	if len(args) >= 1 && args[0] != "worker" {
+		// one scratch root per top-level run: everything a killed worker
+		// leaves behind goes with it
+		cleanup := vkScratchRoot()
+		defer cleanup()
+	}
 	if len(args) >= 2 && args[0] == "check" {
 		if fn, ok := vkChecks[args[1]]; ok {
 			return fn(args[2:])
